@@ -146,6 +146,33 @@ def build_roundtrip(spec):
             # a second save of the same object must give the same loaded object (no accumulation)
             save_hypergraph(h, path, binary=(fmt == "hgx"))
             g2 = load_hypergraph(path)
+            # a loaded object is a hypergraph like any other: change a weight and a metadata value on a freshly loaded
+            # copy, save it, load it again
+            gm = load_hypergraph(path)
+            g3 = None
+            recs0 = sorted(gm.get_edges(), key=str)
+            if recs0:
+                k0 = recs0[0]
+                new_w = S.int("w_after_load")
+                new_m = S.int("m_after_load")
+                args = (k0,) if kind in ("Hypergraph", "DirectedHypergraph") else \
+                    ((k0[1], k0[0]) if kind == "TemporalHypergraph" else (k0[0], k0[1]))
+                if weighted:
+                    gm.set_weight(*args, new_w)
+                if kind == "MultiplexHypergraph":
+                    gm.set_attr_to_edge_metadata(*args, "k", new_m)
+                else:
+                    md0 = dict(gm.get_edge_metadata(*args))
+                    md0["k"] = new_m
+                    gm.set_edge_metadata(*args, md0)
+                mod_snap = snapshot(kind, gm, U)
+                path3 = os.path.join(d, "y." + fmt)
+                save_hypergraph(gm, path3, binary=(fmt == "hgx"))
+                g3 = load_hypergraph(path3)
+        if g3 is not None:
+            r = same(kind, mod_snap, snapshot(kind, g3, U))
+            if r:
+                return Fail("roundtrip-after-modifying-a-loaded-object:%s" % r)
         loaded = snapshot(kind, g, U)
         r = same(kind, before, loaded)
         if r:
